@@ -215,6 +215,71 @@ def r_dim(ctx, db, est, scen, extra_contracts=None):
                     for e in pth.cmp_log:
                         sol.compare(e[1], e[2], "operands of a comparison")
                 attempt("%s:comparisons" % kind, fn, "%s (%s state) comparisons" % (kind, label), th2)
+    scen["dim_solver"] = sol
+    return n_ob
+
+
+def all_nodes(n, acc):
+    stack = [n]
+    while stack:
+        x = stack.pop()
+        if not isinstance(x, tuple) or x in acc:
+            continue
+        acc.add(x)
+        if x[0] in ("add", "sub", "mul", "div", "neg"):
+            stack.extend(x[1:])
+        elif x[0] == "fn":
+            stack.extend(a for a in x[2:] if isinstance(a, tuple))
+    return acc
+
+
+def r_mag(ctx, db, est, scen, nmax, axis="X"):
+    """no intermediate of an accessor or update has a physical dimension beyond X^nmax: the
+    property's domain only guarantees that max|x|^nmax (times n) is representable, so a power
+    beyond it overflows/underflows for legal inputs although the final statistic is representable"""
+    sol = scen.get("dim_solver")
+    if sol is None:
+        return 0
+    ax = sol.axes.index(axis)
+    n_ob = 0
+
+    def check(where, fn, node):
+        nonlocal n_ob
+        worst = None
+        for x in all_nodes(node, set()):
+            if x[0] in ("lit", "i2f"):
+                continue
+            try:
+                d = sol.dim(x)
+            except Clash:
+                continue
+            if d is POLY:
+                continue
+            c, t = sol._resolve(d, ax)
+            if t:
+                continue
+            if abs(c) > nmax and (worst is None or abs(c) > worst[0]):
+                worst = (abs(c), x)
+        n_ob += 1
+        ctx.ob("R-MAG", "%s:max-degree" % where, fn, R.fn_site(db, fn), worst is None,
+               "%s: every intermediate has dimension within X^%d" % (where, nmax) if worst is None else
+               "%s: the intermediate %s has dimension X^%s, beyond X^%d — it overflows/underflows for data whose statistic is still representable" % (
+                   where, F.show(worst[1])[:140], worst[0], nmax),
+               sample={"intermediate": F.show(worst[1])[:200], "degree": str(worst[0])} if worst else None)
+
+    for name, (p, paths) in sorted(scen["acc"].items()):
+        for pth in paths:
+            if pth.status == "return" and is_float(pth.ret[0]):
+                check(name, p, pth.ret[0])
+    for kind in ("add", "merge"):
+        for label, paths in scen[kind]:
+            fn = est.add if kind == "add" else est.merge
+            for pth in paths:
+                if pth.status != "return":
+                    continue
+                for leaf, v in sorted(pth.ret[1].items()):
+                    if is_float(v) and v != pth.ret[0].get(leaf):
+                        check("%s:%s" % (kind, leaf), fn, v)
     return n_ob
 
 
